@@ -3,15 +3,18 @@ import ast
 import os
 
 LEVEL = "exploration"
-LEVEL_TEXT = ("bounded stand-in (labelled as such) plus a syntactic obligation per decoder: the set of functions carrying @decoder in the real AST of every decoder module "
-              "must equal the pinned list of shipped decoders and must be exactly what get_analyzers() returns; build_registry / get_analyzers / get_keywords are run on "
-              "all include / exclude subsets of size <= 2 (and random larger ones, including overlapping include and exclude lists, repeated builds in one process) and "
-              "on generated keyword directories (empty files, blank lines, CRLF, nested directories, duplicate words, names with blanks)")
-LEVEL_NOTE = ("not proved: registry.py is glue over pkgutil / importlib / inspect / os.walk, whose contracts would all be assumptions; the include / exclude logic is propositional and "
-              "is exercised exhaustively for small subsets instead")
+LEVEL_TEXT = ("the selection logic of get_analyzers is PROVED for every include / exclude configuration (pkgutil / importlib / inspect as uninterpreted deterministic functions): a module is "
+              "skipped only when the configuration says so (an include list is given and does not name it, or an exclude list names it), it is imported only when selected, and a function is "
+              "registered only when it is a member of a selected module and carries the registration mark; both loops are plain for-loops over the library's results, so every module and "
+              "member is visited once, in order. The rest is a bounded stand-in (labelled as such) plus a syntactic obligation per decoder: the set of functions carrying @decoder in the real "
+              "AST of every decoder module must equal the pinned list of shipped decoders and must be exactly what get_analyzers() returns; build_registry / get_analyzers / get_keywords are "
+              "run on all include / exclude subsets of size <= 2 (and random larger ones, including overlapping include and exclude lists, repeated builds in one process) and on generated "
+              "keyword directories (empty files, blank lines, CRLF, nested directories, duplicate words, names with blanks)")
+LEVEL_NOTE = ("the claimed level stays `exploration`: only the selection predicate is proved; which functions the real modules mark, and everything about keyword files (os.walk, file reading) "
+              "is bounded / syntactic; pkgutil.iter_modules, importlib.import_module, inspect.getmembers and hasattr are ASSUMED total and deterministic")
 DESIGN_REF = "DESIGN.md 6 (C18), Appendix B"
-TECHNIQUE = "syntactic marker obligations over the real AST + bounded run-time evaluation of the registry contract"
-FUNCTIONS = []
+TECHNIQUE = "contract-based deductive verification of get_analyzers' selection logic (pyvc, statement-anchored assertions) + syntactic marker obligations over the real AST + bounded run-time evaluation of the registry contract"
+FUNCTIONS = ["multidecoder.registry.get_analyzers"]
 RULE = "evaluations = registry builds compared with the reference; distinct = distinct (include, exclude) pairs and directory layouts"
 EXPLANATION = "bounded stand-in"
 SRC = os.environ.get("VERIF_SRC", "/repo/src")
